@@ -39,10 +39,12 @@ type sconfig struct {
 	tlsConfig    bool
 	insecureAuth bool
 	afterLogin   bool // STARTTLS issued after a (plaintext, InsecureAuth) login
+	sasl         bool // the backend session implements its own SASL mechanisms
+	authCmd      bool // the plaintext credential attempt uses AUTHENTICATE instead of LOGIN
 }
 
 func (c sconfig) String() string {
-	return fmt.Sprintf("TLSConfig=%v InsecureAuth=%v afterLogin=%v", c.tlsConfig, c.insecureAuth, c.afterLogin)
+	return fmt.Sprintf("TLSConfig=%v InsecureAuth=%v afterLogin=%v saslSession=%v authCmd=%v", c.tlsConfig, c.insecureAuth, c.afterLogin, c.sasl, c.authCmd)
 }
 
 // waitConsumed waits until the server has read everything written so far and
@@ -59,7 +61,11 @@ func serverCase(t fataler, cfg sconfig, suffix string, cuts []int, handshake boo
 	core := stub.NewCore()
 	opts := imapserver.Options{
 		NewSession: func(*imapserver.Conn) (imapserver.Session, *imapserver.GreetingData, error) {
-			return stub.Session(core, stub.FAll&^stub.FSASL), nil, nil
+			f := stub.FAll &^ stub.FSASL
+			if cfg.sasl {
+				f = stub.FAll
+			}
+			return stub.Session(core, f), nil, nil
 		},
 		InsecureAuth: cfg.insecureAuth,
 	}
@@ -91,7 +97,11 @@ func serverCase(t fataler, cfg sconfig, suffix string, cuts []int, handshake boo
 	}
 	loggedIn := false
 	if cfg.afterLogin {
-		_, st, err := raw.Cmd("l0", "LOGIN plainuser plainpass")
+		cmd := "LOGIN plainuser plainpass"
+		if cfg.authCmd {
+			cmd = "AUTHENTICATE PLAIN AHBsYWludXNlcgBwbGFpbnBhc3M="
+		}
+		_, st, err := raw.Cmd("l0", cmd)
 		if err != nil {
 			fail("pre-login: %v", err)
 		}
@@ -153,8 +163,8 @@ func serverCase(t fataler, cfg sconfig, suffix string, cuts []int, handshake boo
 		rest, _ := raw.C.ReadAvailable(20*time.Millisecond, 500*time.Millisecond)
 		_ = rest
 		for _, c := range core.Calls() {
-			if c.Method == "Login" && !cfg.insecureAuth {
-				fail("plaintext LOGIN reached the backend without InsecureAuth")
+			if (c.Method == "Login" || c.Method == "Authenticate" || c.Method == "SASL-PLAIN") && !cfg.insecureAuth {
+				fail("plaintext credentials reached the backend (%s) without InsecureAuth", c.Method)
 			}
 		}
 		return accepted
@@ -230,7 +240,9 @@ func TestPropServerBoundary(t *testing.T) {
 		cfg := sconfig{
 			tlsConfig:    rapid.IntRange(0, 4).Draw(t, "tlsConfig") != 0,
 			insecureAuth: rapid.Bool().Draw(t, "insecureAuth"),
-			afterLogin:   rapid.IntRange(0, 4).Draw(t, "afterLogin") == 2,
+			afterLogin:   rapid.IntRange(0, 3).Draw(t, "afterLogin") == 2,
+			sasl:         rapid.Bool().Draw(t, "saslSession"),
+			authCmd:      rapid.Bool().Draw(t, "authCmd"),
 		}
 		suffix := rapid.SampledFrom(suffixes).Draw(t, "suffix")
 		total := len("x STARTTLS\r\n") + len(suffix)
@@ -502,7 +514,8 @@ func TestPropClientBoundary(t *testing.T) {
 }
 
 func TestReplayScenarios(t *testing.T) {
-	for _, cfg := range []sconfig{{tlsConfig: true}, {tlsConfig: true, insecureAuth: true}, {}, {insecureAuth: true}, {tlsConfig: true, insecureAuth: true, afterLogin: true}, {tlsConfig: true, afterLogin: true}} {
+	for _, cfg := range []sconfig{{tlsConfig: true}, {tlsConfig: true, insecureAuth: true}, {}, {insecureAuth: true}, {tlsConfig: true, insecureAuth: true, afterLogin: true}, {tlsConfig: true, afterLogin: true},
+		{tlsConfig: true, afterLogin: true, sasl: true, authCmd: true}, {afterLogin: true, sasl: true, authCmd: true}, {tlsConfig: true, insecureAuth: true, afterLogin: true, sasl: true, authCmd: true}} {
 		for _, sfx := range []string{"", "y LOGIN injuser injpass\r\n"} {
 			for _, hs := range []bool{true, false} {
 				serverCase(t, cfg, sfx, nil, hs)
